@@ -567,6 +567,55 @@ def replay_buddy(ctx, payload):
     return not ok
 
 
+def run_fault(ctx, histories, steps, stride):
+    """Fault enumeration: the k-th backend call fails, for every sampled k; TLC judges the runs"""
+    trace = os.path.join(ctx.work, "fault.ndjson")
+    scripts = os.path.join(ctx.work, "fault-scripts.ndjson")
+    cmd = [bin_path("fault"), "--seed", str(ctx.seed), "--histories", str(histories), "--steps", str(steps), "--stride", str(stride),
+           "--out", trace, "--scripts-out", scripts]
+    p = sh(cmd, timeout=7200)
+    stats = json.loads(p.stdout.strip().splitlines()[-1])
+    log(f"fault: {stats['runs']} faulty runs over {stats['histories']} histories, {stats['errors_returned']} storage errors returned, "
+        f"{stats['crash_probes']} crash probes, {stats['panics']} panics, {p.wall:.1f}s")
+    ok, info = tlc_trace(ctx, "KvTrace", trace, timeout=7200)
+    ctx.cov["evaluations"] += stats["runs"]
+    ctx.cov["distinct_nontrivial"] += stats["runs"]
+    ctx.notes["fault"] = {k: stats[k] for k in ("histories", "runs", "events", "faults_injected", "errors_returned", "crash_probes", "panics")}
+    ctx.add_samples(stats["samples"][:2])
+    if ok:
+        ctx.cov["traces_validated_against_impl"] += stats["runs"]
+        return stats
+    rec = info["record"]
+    # the reset record of the rejected run names history, k and mode
+    meta = None
+    with open(trace) as f:
+        for i, l in enumerate(f):
+            if i + 1 > info["line"]:
+                break
+            ev = json.loads(l)
+            if ev["e"] == "reset":
+                meta = ev
+    script = None
+    for l in open(scripts):
+        j = json.loads(l)
+        if j["history"] == meta["history"]:
+            script = j
+    shown = json.dumps(rec.get("r", rec.get("obs")))[:300]
+    what = (f"with backend call {meta['k']} failing ({meta['mode']}) in history {meta['history']}: KvTrace rejects {rec.get('e')} -> {shown} "
+            f"(event {rec.get('i')})")
+    sig = "fault:" + hashlib.sha256(json.dumps([script["cfg"], script["steps"], meta["k"], meta["mode"]], sort_keys=True).encode()).hexdigest()[:16]
+    payload = {"property": ctx.prop, "kind": "fault", "cfg": script["cfg"], "steps": script["steps"], "calls0": script["calls0"], "k": meta["k"],
+               "mode": meta["mode"], "what": what, "signature": sig}
+    raise Violation(ctx.prop, save_replay(ctx.prop, payload), what, sig)
+
+
+def replay_fault(ctx, replay_path):
+    trace = os.path.join(ctx.work, "replay-fault.ndjson")
+    sh([bin_path("fault"), "--replay", replay_path, "--out", trace], timeout=1200)
+    ok, info = tlc_trace(ctx, "KvTrace", trace)
+    return not ok
+
+
 def gen_tour(ctx, module, cfg, out_name, workers=4, timeout=900):
     """Have TLC print every transition of a tour model"""
     out_path = os.path.join(ctx.work, out_name)
@@ -818,8 +867,28 @@ def check_C14(ctx):
                      "its allocator can serve (RegionTrackerOk on accounting records of multi-region histories)")
 
 
+def check_C08(ctx):
+    build()
+    histories, steps, stride = tiered(ctx, (3, 120, 3), (30, 250, 1))
+    st = run_fault(ctx, histories, steps, stride)
+    if st["errors_returned"] < 100:
+        raise ToolError(f"vacuity: hardly any storage error was returned: {st}")
+    ctx.assumptions += ["a failing call returns an error and has no effect on the storage (the in-memory backend fails before touching its bytes)",
+                        "fault points: every stride-th backend call (quick: 3rd, thorough: every call) of each history, permanent and once"]
+    return dict(level="fault_enumeration", exhaustive=False,
+                rule="for each recorded history (commits of all kinds, readers kept alive, savepoints, compaction) and each sampled index k of "
+                     "its backend call stream (len/read/write/set_len/sync_data) the history is re-executed with call k failing permanently / "
+                     "once; the script continues (reads on live readers, begin_read, begin_write, commit attempts), everything is dropped, the "
+                     "crash states of the storage at that moment are probed and the database is reopened. TLC validates every recorded call "
+                     "against Kv.tla + FaultyStep: no panic; a call returns its specified result or a storage error; after an error was "
+                     "returned begin_write/commit are refused; a commit that returned Ok is in the history (durable if Immediate); every "
+                     "observation after reopen is one commit point >= the last acknowledged durable one, the failed commit entirely in or out. "
+                     "distinct_nontrivial = faulty runs (distinct (history, k, mode)).")
+
+
 PROPS = {
     "C01": check_C01,
+    "C08": check_C08,
     "C14": check_C14,
     "C02": check_C02,
     "C03": check_C03,
@@ -863,6 +932,8 @@ def main(argv):
                 still = replay_crash_case(ctx, replay)
             elif payload.get("kind") == "sched":
                 still = replay_sched(ctx, payload)
+            elif payload.get("kind") == "fault":
+                still = replay_fault(ctx, replay)
             elif payload.get("kind") == "buddy":
                 still = replay_buddy(ctx, payload)
             else:
